@@ -239,12 +239,15 @@ fn extension_additions(input: Input<'_>) -> ParserResult<'_, ()> {
                         pair(
                             terminated(
                                 alt((value(None, tag(MIN)), map(asn1_value, Some))),
-                                skip_ws_and_comments(opt(char(GREATER_THAN))),
+                                skip_ws_and_comments(opt(alt((
+                                    char(LESS_THAN),
+                                    char(GREATER_THAN),
+                                )))),
                             ),
                             preceded(
                                 range_seperator,
                                 preceded(
-                                    opt(char(LESS_THAN)),
+                                    skip_ws_and_comments(opt(char(LESS_THAN))),
                                     skip_ws_and_comments(alt((
                                         value(None, tag(MAX)),
                                         map(asn1_value, Some),
@@ -298,19 +301,31 @@ fn contained_subtype(input: Input<'_>) -> ParserResult<'_, SubtypeElements> {
     .parse(input)
 }
 
+/// X.680 51.4.2: a `<` next to an end point of a value range excludes the end point itself.
+/// An integer literal is replaced by its neighbour inside the range; an end point that is only
+/// known to the linker (a reference) or is not an integer stays as it is, which keeps the range
+/// a superset of the open one.
+fn open_end_point(end_point: Option<ASN1Value>, open: bool, inwards: i128) -> Option<ASN1Value> {
+    match end_point {
+        Some(ASN1Value::Integer(i)) if open => Some(ASN1Value::Integer(i.saturating_add(inwards))),
+        end_point => end_point,
+    }
+}
+
 fn value_range(input: Input<'_>) -> ParserResult<'_, SubtypeElements> {
     opt_delimited(
         skip_ws_and_comments(char(LEFT_PARENTHESIS)),
         skip_ws_and_comments(map(
             (
-                terminated(
+                pair(
                     alt((value(None, tag(MIN)), map(asn1_value, Some))),
-                    skip_ws_and_comments(opt(char(GREATER_THAN))),
+                    // (a `>` used to be skipped here and still is)
+                    skip_ws_and_comments(opt(alt((char(LESS_THAN), char(GREATER_THAN))))),
                 ),
                 preceded(
                     range_seperator,
-                    preceded(
-                        opt(char(LESS_THAN)),
+                    pair(
+                        skip_ws_and_comments(opt(char(LESS_THAN))),
                         skip_ws_and_comments(alt((value(None, tag(MAX)), map(asn1_value, Some)))),
                     ),
                 ),
@@ -320,9 +335,9 @@ fn value_range(input: Input<'_>) -> ParserResult<'_, SubtypeElements> {
                     extension_additions,
                 ))),
             ),
-            |(min, max, ext)| SubtypeElements::ValueRange {
-                min,
-                max,
+            |((min, open_min), (open_max, max), ext)| SubtypeElements::ValueRange {
+                min: open_end_point(min, open_min == Some(LESS_THAN), 1),
+                max: open_end_point(max, open_max.is_some(), -1),
                 extensible: ext.is_some(),
             },
         )),
